@@ -120,3 +120,203 @@ theorem buildTagMap_spec :
           exact Or.inr ⟨h1.2, by simp [h1.1, h2]⟩
 
 end BfeVerif.C14
+
+/-! ### GSLB: the sorted sub-cluster list does not depend on the order / history of additions -/
+namespace BfeVerif.C14
+
+theorem subLe_trans (a b c : Sub) (h1 : subLe a b = true) (h2 : subLe b c = true) : subLe a c = true := by
+  simp only [subLe, decide_eq_true_eq] at *
+  exact String.le_trans h1 h2
+
+theorem subLe_total (a b : Sub) : (subLe a b || subLe b a) = true := by
+  simp only [subLe, Bool.or_eq_true, decide_eq_true_eq]
+  exact String.le_total a.name b.name
+
+theorem sumPos_perm {l l' : List Sub} (h : l.Perm l') : sumPos l = sumPos l' := by
+  induction h with
+  | nil => rfl
+  | cons x _ ih => simp [sumPos, ih]
+  | swap x y l => simp only [sumPos]; omega
+  | trans _ _ ih1 ih2 => exact ih1.trans ih2
+
+theorem eq_of_name_eq {l : List Sub} (hn : (l.map (·.name)).Nodup) {a b : Sub} (ha : a ∈ l) (hb : b ∈ l)
+    (h : a.name = b.name) : a = b := by
+  induction l with
+  | nil => simp at ha
+  | cons x xs ih =>
+    simp only [List.map_cons, List.nodup_cons, List.mem_map, not_exists, not_and] at hn
+    simp only [List.mem_cons] at ha hb
+    rcases ha with rfl | ha <;> rcases hb with rfl | hb
+    · rfl
+    · exact absurd h.symm (hn.1 b hb)
+    · exact absurd h (hn.1 a ha)
+    · exact ih hn.2 ha hb
+
+/-- a sorted permutation of a list with pairwise distinct names is unique: any correct `sort.Sort` yields it -/
+theorem sorted_perm_unique {l s1 s2 : List Sub} (hn : (l.map (·.name)).Nodup)
+    (p1 : s1.Perm l) (p2 : s2.Perm l)
+    (o1 : s1.Pairwise fun a b => subLe a b = true) (o2 : s2.Pairwise fun a b => subLe a b = true) : s1 = s2 := by
+  refine List.Perm.eq_of_pairwise (le := fun a b => subLe a b = true) ?_ o1 o2 (p1.trans p2.symm)
+  intro a b ha hb h1 h2
+  have ha' : a ∈ l := p1.mem_iff.mp ha
+  have hb' : b ∈ l := p2.mem_iff.mp hb
+  simp only [subLe, decide_eq_true_eq] at h1 h2
+  exact eq_of_name_eq hn ha' hb' (String.le_antisymm h1 h2)
+
+theorem sort_eq_of_perm {l l' : List Sub} (hp : l.Perm l') (hn : (l.map (·.name)).Nodup) :
+    l.mergeSort subLe = l'.mergeSort subLe :=
+  sorted_perm_unique hn (List.mergeSort_perm l subLe) ((List.mergeSort_perm l' subLe).trans hp.symm)
+    (List.pairwise_mergeSort subLe_trans subLe_total l) (List.pairwise_mergeSort subLe_trans subLe_total l')
+
+theorem confWeight_iff {conf : List Sub} (hn : (conf.map (·.name)).Nodup) (n : String) (w : Int) :
+    confWeight conf n = some w ↔ ({ name := n, weight := w } : Sub) ∈ conf := by
+  induction conf with
+  | nil => simp [confWeight]
+  | cons c cs ih =>
+    simp only [List.map_cons, List.nodup_cons, List.mem_map, not_exists, not_and] at hn
+    by_cases hc : c.name = n
+    · have : confWeight (c :: cs) n = some c.weight := by simp [confWeight, List.find?_cons, hc]
+      rw [this]
+      constructor
+      · intro h; injection h with h; subst h; subst hc; simp
+      · intro h
+        simp only [List.mem_cons] at h
+        rcases h with h | h
+        · rw [← h]
+        · exact absurd (by simp [hc]) (hn.1 _ h)
+    · have : confWeight (c :: cs) n = confWeight cs n := by simp [confWeight, List.find?_cons, hc]
+      rw [this, ih hn.2]
+      simp only [List.mem_cons]
+      constructor
+      · exact Or.inr
+      · rintro (h | h)
+        · exact absurd (by rw [← h]) hc
+        · exact h
+
+def keptOf (g : Gslb) (conf : List Sub) : List Sub :=
+  g.subs.filterMap fun s => (confWeight conf s.name).map fun w => { s with weight := w }
+
+def freshOf (g : Gslb) (conf : List Sub) : List Sub :=
+  conf.filter fun c => !(g.subs.any fun s => s.name == c.name)
+
+theorem mem_keptOf {g : Gslb} {conf : List Sub} (hn : (conf.map (·.name)).Nodup) (x : Sub) :
+    x ∈ keptOf g conf ↔ x ∈ conf ∧ ∃ s ∈ g.subs, s.name = x.name := by
+  simp only [keptOf, List.mem_filterMap, Option.map_eq_some_iff]
+  constructor
+  · rintro ⟨s, hs, w, hw, rfl⟩
+    exact ⟨(confWeight_iff hn s.name w).mp hw, s, hs, rfl⟩
+  · rintro ⟨hx, s, hs, hsn⟩
+    refine ⟨s, hs, x.weight, ?_, ?_⟩
+    · rw [confWeight_iff hn, hsn]; exact hx
+    · cases x; simp_all
+
+theorem mem_freshOf {g : Gslb} {conf : List Sub} (x : Sub) :
+    x ∈ freshOf g conf ↔ x ∈ conf ∧ ¬ ∃ s ∈ g.subs, s.name = x.name := by
+  simp [freshOf, List.mem_filter]
+
+theorem names_keptOf_sublist (conf : List Sub) : ∀ l : List Sub,
+    ((l.filterMap fun s => (confWeight conf s.name).map fun w => ({ s with weight := w } : Sub)).map (·.name)).Sublist
+      (l.map (·.name))
+  | [] => by simp
+  | s :: rest => by
+    simp only [List.filterMap_cons, List.map_cons]
+    cases h : confWeight conf s.name with
+    | none => simp only [Option.map_none]; exact (names_keptOf_sublist conf rest).cons _
+    | some w => simp only [Option.map_some, List.map_cons]; exact (names_keptOf_sublist conf rest).cons₂ _
+
+theorem nodup_of_names : ∀ {l : List Sub}, (l.map (·.name)).Nodup → l.Nodup
+  | [], _ => List.nodup_nil
+  | x :: xs, h => by
+    simp only [List.map_cons, List.nodup_cons, List.mem_map, not_exists, not_and] at h
+    rw [List.nodup_cons]
+    exact ⟨fun hx => h.1 x hx rfl, nodup_of_names h.2⟩
+
+/-- the list `Reload` builds before sorting is a permutation of the new conf -/
+theorem reload_list_perm (g : Gslb) (conf : List Sub) (hg : (g.subs.map (·.name)).Nodup)
+    (hn : (conf.map (·.name)).Nodup) : (keptOf g conf ++ freshOf g conf).Perm conf := by
+  have hconf : conf.Nodup := nodup_of_names hn
+  have hk : (keptOf g conf).Nodup :=
+    nodup_of_names (List.Nodup.sublist (names_keptOf_sublist conf g.subs) hg)
+  have hf : (freshOf g conf).Nodup := List.Nodup.sublist List.filter_sublist hconf
+  have hnd : (keptOf g conf ++ freshOf g conf).Nodup := by
+    rw [List.nodup_append]
+    refine ⟨hk, hf, fun a ha b hb hab => ?_⟩
+    subst hab
+    exact ((mem_freshOf a).mp hb).2 ((mem_keptOf hn a).mp ha).2
+  refine (List.perm_ext_iff_of_nodup hnd hconf).mpr fun x => ?_
+  simp only [List.mem_append, mem_keptOf hn, mem_freshOf]
+  constructor
+  · rintro (h | h) <;> exact h.1
+  · intro hx
+    by_cases he : ∃ s ∈ g.subs, s.name = x.name
+    · exact Or.inl ⟨hx, he⟩
+    · exact Or.inr ⟨hx, he⟩
+
+theorem gslbReload_eq (g : Gslb) (conf : List Sub) (hv : ¬ sumPos conf ≤ 0) :
+    gslbReload g conf =
+      let sorted := (keptOf g conf ++ freshOf g conf).mergeSort subLe
+      { subs := sorted, total := sumPos sorted, single := availNum sorted == 1,
+        avail := if availNum sorted == 1 then lastAvail sorted else g.avail } := by
+  simp only [gslbReload, hv, if_false, keptOf, freshOf]
+  rfl
+
+end BfeVerif.C14
+
+namespace BfeVerif.C14
+
+theorem names_nodup_of_perm {l l' : List Sub} (hp : l.Perm l') (hn : (l'.map (·.name)).Nodup) :
+    (l.map (·.name)).Nodup := (hp.map (·.name)).nodup_iff.mpr hn
+
+theorem reload_names_nodup (g : Gslb) (conf : List Sub) (hg : (g.subs.map (·.name)).Nodup)
+    (hn : (conf.map (·.name)).Nodup) : ((gslbReload g conf).subs.map (·.name)).Nodup := by
+  by_cases hv : sumPos conf ≤ 0
+  · simp [gslbReload, hv, hg]
+  · rw [gslbReload_eq g conf hv]
+    exact names_nodup_of_perm ((List.mergeSort_perm _ subLe).trans (reload_list_perm g conf hg hn)) hn
+
+theorem history_names_nodup : ∀ (hist : List (List Sub)) (g : Gslb), (g.subs.map (·.name)).Nodup →
+    (∀ c ∈ hist, (c.map (·.name)).Nodup) → ((gslbHistory g hist).subs.map (·.name)).Nodup
+  | [], g, hg, _ => hg
+  | c :: rest, g, hg, hh => by
+    simp only [gslbHistory, List.foldl_cons]
+    exact history_names_nodup rest (gslbReload g c) (reload_names_nodup g c hg (hh c (by simp)))
+      fun c' hc' => hh c' (by simp [hc'])
+
+theorem init_names_nodup {conf : List Sub} {g : Gslb} (hn : (conf.map (·.name)).Nodup)
+    (h : gslbInit conf = some g) : (g.subs.map (·.name)).Nodup := by
+  unfold gslbInit at h
+  simp only [] at h
+  split at h
+  · simp at h
+  · injection h with h; subst h
+    exact names_nodup_of_perm (List.mergeSort_perm conf subLe) hn
+
+theorem select_norm (g : Gslb) (h : Int) : gslbSelect g.norm h = gslbSelect g h := by
+  unfold gslbSelect Gslb.norm
+  cases hs : g.single <;> simp [hs]
+
+end BfeVerif.C14
+
+namespace BfeVerif.C14
+
+/-- the state a fresh `Init` of a valid conf produces -/
+def initState (conf : List Sub) : Gslb :=
+  { subs := conf.mergeSort subLe, total := sumPos conf,
+    single := availNum (conf.mergeSort subLe) == 1, avail := lastAvail (conf.mergeSort subLe) }
+
+theorem gslbInit_eq (conf : List Sub) (h : sumPos conf ≠ 0) : gslbInit conf = some (initState conf) := by
+  unfold gslbInit initState
+  simp [h]
+
+theorem reload_norm_eq (g : Gslb) (hg : (g.subs.map (·.name)).Nodup) (conf conf' : List Sub)
+    (hp : conf.Perm conf') (hn : (conf.map (·.name)).Nodup) (hv : ¬ sumPos conf ≤ 0) :
+    (gslbReload g conf).norm = (initState conf').norm := by
+  have hperm := reload_list_perm g conf hg hn
+  have hsort : (keptOf g conf ++ freshOf g conf).mergeSort subLe = conf'.mergeSort subLe :=
+    sort_eq_of_perm (hperm.trans hp) (names_nodup_of_perm hperm hn)
+  have htot : sumPos (conf'.mergeSort subLe) = sumPos conf' := sumPos_perm (List.mergeSort_perm conf' subLe)
+  rw [gslbReload_eq g conf hv]
+  simp only [hsort, htot, Gslb.norm, initState]
+  by_cases hb : (availNum (List.mergeSort conf' subLe) == 1) = true <;> simp [hb]
+
+end BfeVerif.C14
